@@ -159,6 +159,8 @@ class Config:
                  "  CF <- G_CF", "  Calls <- G_Calls", "  InitCalls <- G_InitCalls",
                  f"  PhaseMod = {self.phase_mod}", f"  PhaseTol = {self.ptol}",
                  f"  NAssign = {len(getattr(self, 'assignments', []))}",
+                 "  InitDevs = {" + ", ".join(str(d) for d in getattr(self, "init_devs", None)
+                                                or range(1, len(self.devs) + 1)) + "}",
                  f"  MaxDepth = {self.max_depth if depth is None else depth}"]
         for inv in invariants:
             lines.append(f"INVARIANT {inv}")
@@ -697,6 +699,61 @@ def template(depth=3):
     return c
 
 
+def switch(depth=2):
+    """C18: a base device and variants differing in one channel / device parameter each."""
+    import copy
+    base = {"nq": 2, "chs": [
+        {"kind": "ryd", "addr": "G", "clock": 4, "minDur": 8, "bw": 80.0, "maxAmp": 10.0, "maxDet": 50.0,
+         "eom": {"bw": 40.0, "controlled_beams": ("BLUE", "RED")}},
+        {"kind": "ram", "addr": "L", "clock": 4, "minDur": 4, "bw": 160.0, "minRet": 20, "fixRet": 8, "maxTg": 1},
+    ]}
+    variants = [("base", lambda d: None)]
+
+    def ch(i, **kw):
+        return lambda d: d["chs"][i].update(kw)
+
+    def eomkw(**kw):
+        return lambda d: d["chs"][0]["eom"].update(kw)
+    variants += [
+        ("clock2", ch(0, clock=2)), ("clock8", ch(0, clock=8)), ("minDur16", ch(0, minDur=16)),
+        ("maxDur40", ch(0, maxDur=40)), ("bw40", ch(0, bw=40.0)), ("cpjt40", ch(0, cpjt=40)),
+        ("cpjt0", ch(0, cpjt=0)), ("minRet100", ch(1, minRet=100)), ("minRet0", ch(1, minRet=0)), ("fixRet0", ch(1, fixRet=0)),
+        ("fixRet24", ch(1, fixRet=24)), ("locMinDur16", ch(1, minDur=16)), ("maxAmp0.9", ch(0, maxAmp=0.9)),
+        ("maxDet0.5", ch(0, maxDet=0.5)), ("minAvg1.5", ch(0, minAvg=1.5)), ("eombuf48", eomkw(buf=48)),
+        ("eombw20", eomkw(bw=20.0)), ("eomdet", eomkw(intermediate_detuning=500 * 2 * np.pi)),
+        ("maxSeq60", lambda d: d.update(maxSeq=60)), ("level70", lambda d: d.update(level=70)),
+        ("reusable", lambda d: d.update(reusable=True)), ("maxTgNone", ch(1, maxTg=None)),
+        ("swapped", lambda d: d["chs"].reverse()),
+    ]
+    devs, tags = [], []
+    for tag, f in variants:
+        d = copy.deepcopy(base)
+        f(d)
+        devs.append(d)
+        tags.append(tag)
+    pulses = [Pulse.ConstantPulse(16, 1.0, 0.0, 0.0), Pulse.ConstantPulse(12, 2.0, -1.0, 0.5),
+              Pulse.ConstantDetuning(BlackmanWaveform(24, 0.05), 0.0, 0.0)]
+    setpoints = [(1.0, 0.0, 0.0), (2.0, -1.0, -10.0)]
+    calls = [{"op": "declare", "nm": 1, "cid": 1, "it": 0}, {"op": "declare", "nm": 2, "cid": 2, "it": 1}]
+    P = "min-delay"
+    for (nm, p, proto) in ((1, 1, P), (1, 2, P), (1, 3, "no-delay"), (2, 1, P), (2, 2, "wait-for-all")):
+        calls.append({"op": "add", "nm": nm, "p": p, "proto": proto})
+    calls += [{"op": "delay", "nm": 1, "d": 8, "rest": False}, {"op": "delay", "nm": 2, "d": 16, "rest": True},
+              {"op": "target", "nm": 2, "tg": 2}, {"op": "target", "nm": 2, "tg": 1},
+              {"op": "align", "nms": [1, 2], "rest": True},
+              {"op": "pshift", "phi": 1, "tg": 1, "basis": "ground-rydberg"},
+              {"op": "eom_on", "nm": 1, "sp": 1, "cpd": False}, {"op": "eom_on", "nm": 1, "sp": 2, "cpd": False},
+              {"op": "eom_add", "nm": 1, "dur": 16, "ph": 0, "pps": 0, "proto": P, "cpd": False},
+              {"op": "eom_off", "nm": 1, "cpd": False}, {"op": "measure", "basis": "ground-rydberg"}]
+    c = Config("switch", devs, pulses, calls, [1, 2], depth, setpoints=setpoints, cf_max=60)
+    c.switch = True
+    c.init_devs = [1]
+    c.dev_tags = tags
+    # the swapped device has another channel layout: the model's replay (same channel ids) does not apply
+    c.skip_model_switch = {len(devs): True}
+    return c
+
+
 def instances(name, tier):
     """The configurations of family `name` for a tier (each with a unique .name tag)."""
     quick = tier != "thorough"
@@ -726,6 +783,10 @@ def instances(name, tier):
         a = fine(4)
         a.name = "fine-d4"
         return [a, b]
+    if name == "switch":
+        c = switch(2 if quick else 3)
+        c.name = f"switch-d{c.max_depth}"
+        return [c]
     if name == "rel":
         out = []
         for fam in ("core", "eom", "render", "template", "typestate"):
